@@ -204,6 +204,18 @@ pub fn validate(btr: &Btr, arch: &str) -> Vec<(String, String, Option<u64>)> {
             }
             _ => bad.push(("entry-exit-unset".into(), ctx("entry or exit not set".into()))),
         }
+        // control leaves an instruction's graph at its exit block and nowhere else: the exit has no out-edges, and an
+        // unconditional edge is the only edge out of its block (otherwise "exactly one enabled successor" fails)
+        if let Some(ex) = g.exit() {
+            if g.edges().iter().any(|e| e.head() == ex) {
+                bad.push(("exit-has-successors".into(), ctx(format!("edge(s) lead out of the exit block {}", ex))));
+            }
+        }
+        for e in g.edges() {
+            if e.condition().is_none() && g.edges().iter().filter(|o| o.head() == e.head()).count() > 1 {
+                bad.push(("unconditional-edge-with-siblings".into(), ctx(format!("{}", e))));
+            }
+        }
         for e in g.edges() {
             if !blocks.contains(&e.head()) || !blocks.contains(&e.tail()) {
                 bad.push(("dangling-edge".into(), ctx(format!("{}", e))));
